@@ -1130,6 +1130,15 @@ pub struct Fs {
     /// and bypass the page cache without plumbing the per-`File`
     /// `direct_io` flag through the kernel-shaped API.
     pub direct_io_fds: indexmap::IndexSet<RawFd>,
+    /// Subset of [`Self::open_handles`] that was not opened for reading.
+    ///
+    /// Like [`Self::direct_io_fds`]: the access mode lives in the shim's
+    /// `File`, which the io_uring shim never sees; recording the restricted
+    /// descriptors here lets it refuse the access with `EBADF` as the
+    /// synchronous API (and the kernel) does.
+    pub unreadable_fds: indexmap::IndexSet<RawFd>,
+    /// Subset of [`Self::open_handles`] that was not opened for writing.
+    pub unwritable_fds: indexmap::IndexSet<RawFd>,
     /// Next file descriptor to assign.
     next_fd: RawFd,
     /// Probability that writes are randomly synced to durable storage (0.0 - 1.0)
@@ -1175,6 +1184,8 @@ impl Fs {
             pending: Vec::new(),
             open_handles: IndexMap::new(),
             direct_io_fds: indexmap::IndexSet::new(),
+            unreadable_fds: indexmap::IndexSet::new(),
+            unwritable_fds: indexmap::IndexSet::new(),
             next_fd: SIM_FD_BASE,
             sync_probability: config.sync_probability,
             capacity: config.capacity,
